@@ -468,7 +468,9 @@ func (g *TxGen) renewNode(n *SimNode, extra int) *GenTx {
 				has = true
 			}
 		}
-		if !has {
+		// The first sign-up (which resumes the suspended runtime) waits until a passed proposal has moved a
+		// roothash limit below what that runtime declares (4 / 4), or until the history is half over.
+		if !has && (g.h.Height*2 >= int64(g.h.Cfg.Blocks) || g.roothashLimitsBelow(4)) {
 			newRts = append(append([]*node.Runtime(nil), newRts...), &node.Runtime{ID: IdleOwnerRuntimeID, Version: rtVersion1})
 			joinsIdle = true
 		}
